@@ -235,6 +235,18 @@ pub fn run(ctx: &mut Ctx) {
             if round == 0 && !ctx.miri {
                 arith_is_reported(ctx, &doc, &path, &mut rng);
             }
+            if round == 0 && matches!(path, JPath::Steps(_)) {
+                // the same steps written without the leading `$` select the same items
+                let plain = refpath::render(&path, &refpath::PLAIN, &mut rng);
+                let rootless = plain.strip_prefix("$.").filter(|r| r.starts_with(|c: char| c.is_ascii_alphabetic())).or_else(|| plain.strip_prefix('$').filter(|r| r.starts_with('[') || r.starts_with(':')));
+                if let Some(r) = rootless {
+                    let first: String = r.chars().take_while(|c| c.is_ascii_alphanumeric() || *c == '_').collect::<String>().to_ascii_lowercase();
+                    if !r.is_empty() && !["true", "false", "null", "last", "exists", "to", "nan", "inf", "infinity"].contains(&first.as_str()) {
+                        ctx.count("rootless spellings");
+                        check(ctx, &doc, &path, r);
+                    }
+                }
+            }
             if round == 2 && i % 3 == 0 && !refpath::has_arith(&path) && !ctx.miri {
                 // one Selector object for several documents in turn
                 let enc = refcodec::encode(&doc);
